@@ -1540,12 +1540,24 @@ class Cell(Bucket):
 
     def _fix_invalid_placements(self, queue, servers):
         """If app is placed on non-existent server, set server to None.
+
+        If app is placed on a server that no longer belongs to the partition
+        of the app allocation, or no longer has the app traits, remove it.
         """
         for app in queue:
             if app.server and app.server not in servers:
                 app.server = None
                 app.evicted = True
                 app.release_identity()
+            elif app.server:
+                server = servers[app.server]
+                if ((app.allocation is not None and
+                     app.allocation.label not in server.labels) or
+                        not server.traits.has(app.traits)):
+                    _LOGGER.info('Invalid placement: %s on %s',
+                                 app.name, server.name)
+                    server.remove(app.name)
+                    app.release_identity()
 
     def _record_rank_and_util(self, queue):
         """Set final rank and utilization for all apps in the queue.
